@@ -500,11 +500,19 @@ def build_group(M, route, rng, enc=None):
         for k in (i, j):
             if k not in order:
                 order.append(k)
-    G = coxeter.CoxeterGroup(diagram=diagram)
+    # the documented argument is "an iterable of triples": a list, a tuple of
+    # lists, or a one-shot iterator / generator (seeded change C08-r2-3: a second
+    # pass over the argument finds a one-shot iterable exhausted)
+    form = ["list", "tuple-of-lists", "iterator", "generator"][int(rng.integers(0, 4))]
+    arg = {"list": lambda: list(diagram),
+           "tuple-of-lists": lambda: tuple(list(t) for t in diagram),
+           "iterator": lambda: iter(diagram),
+           "generator": lambda: (t for t in diagram)}[form]()
+    G = coxeter.CoxeterGroup(diagram=arg)
     Mo = tuple(tuple(M[a][b] for b in order) for a in order)
     rawo = [[raw[a][b] for b in order] for a in order]
     desc = {"route": "diagram", "naming": "multi-char" if len(names[0]) > 1 else "one-char",
-            "diagram": [[a, b2, c] for (a, b2, c) in diagram]}
+            "diagram": [[a, b2, c] for (a, b2, c) in diagram], "diagram_argument": form}
     return G, desc, [names[k] for k in order], Mo, rawo
 
 
